@@ -47,6 +47,7 @@ type call struct {
 	delay  time.Duration
 	offset time.Duration
 	client int
+	thread int // calls with the same thread number run one after the other on one harness thread
 }
 
 type result struct {
@@ -148,18 +149,32 @@ func callScenarioX(name string, bind uint16, calls []call, bound int, discovery 
 				clients = append(clients, mkClient(bind, calls, k))
 			}
 		}
+		threads := map[int][]int{}
+		order := []int{}
 		for i := range calls {
-			i := i
-			c := calls[i]
 			cur[i] = &result{}
-			vs.GoNamed(fmt.Sprintf("call%d:%s", i, c.op), func() {
-				if c.offset > 0 {
-					vs.Sleep(c.offset)
+			t := calls[i].thread
+			if t == 0 {
+				t = 100 + i // no thread given: one thread per call
+			}
+			if _, ok := threads[t]; !ok {
+				order = append(order, t)
+			}
+			threads[t] = append(threads[t], i)
+		}
+		for _, t := range order {
+			mine := threads[t]
+			vs.GoNamed(fmt.Sprintf("caller%d", t), func() {
+				for _, i := range mine {
+					c := calls[i]
+					if c.offset > 0 {
+						vs.Sleep(c.offset)
+					}
+					cur[i].start = vs.NowNs()
+					cur[i].obs = ops.Invoke(clients[c.client], c.op, ctrls[c.ctrl].serial, c.args)
+					cur[i].end = vs.NowNs()
+					cur[i].done = true
 				}
-				cur[i].start = vs.NowNs()
-				cur[i].obs = ops.Invoke(clients[c.client], c.op, ctrls[c.ctrl].serial, c.args)
-				cur[i].end = vs.NowNs()
-				cur[i].done = true
 			})
 		}
 		if discovery {
@@ -374,7 +389,11 @@ func main() {
 											{op: pr[1], args: argsFor(pr[1], 1), ctrl: c1, path: p1, delay: d1, offset: off, client: nclients - 1},
 										}
 										name := fmt.Sprintf("2calls/bind=%d/clients=%d/same=%v/%s+%s/%s:%v+%s:%v@%v", bind, nclients, same, pr[0], pr[1], p0, d0, p1, d1, off)
-										scenarios = append(scenarios, callScenario(name, bind, calls, bound, false))
+										sc := callScenario(name, bind, calls, bound, false)
+										if r.Thorough() {
+											sc.Bound, sc.Name = -1, sc.Name+"/unbounded" // every interleaving
+										}
+										scenarios = append(scenarios, sc)
 										if nclients == 2 && pi == 0 && off == 0 {
 											// same bind port (fixed or 0), wildcard vs specific local address
 											scenarios = append(scenarios, callScenarioX(name+"/split-bind-address", bind, calls, bound, false, true))
@@ -383,6 +402,34 @@ func main() {
 								}
 							}
 						}
+					}
+				}
+			}
+		}
+	}
+	// two threads, two calls each (histories within a thread), and three concurrent calls with mixed paths
+	for _, bind := range []uint16{0, 60001} {
+		for _, p0 := range paths {
+			for _, p1 := range paths {
+				calls := []call{
+					{op: "GetCardByID", args: argsFor("GetCardByID", 0), ctrl: 0, path: p0, delay: 4 * T / 10, client: 0, thread: 1},
+					{op: "GetEvent", args: argsFor("GetEvent", 0), ctrl: 0, path: p0, delay: 0, client: 0, thread: 1},
+					{op: "GetCardByID", args: argsFor("GetCardByID", 1), ctrl: 1, path: p1, delay: 8 * T / 10, client: 0, thread: 2},
+					{op: "PutCard", args: argsFor("PutCard", 1), ctrl: 1, path: p1, delay: 4 * T / 10, client: 0, thread: 2},
+				}
+				b := 1
+				if r.Thorough() {
+					b = 2
+				}
+				scenarios = append(scenarios, callScenario(fmt.Sprintf("2threads-x-2calls/bind=%d/%s+%s", bind, p0, p1), bind, calls, b, false))
+				if r.Thorough() {
+					for _, p2 := range paths {
+						c3 := []call{
+							{op: "GetCardByID", args: argsFor("GetCardByID", 0), ctrl: 0, path: p0, delay: 8 * T / 10, client: 0},
+							{op: "GetCardByID", args: argsFor("GetCardByID", 1), ctrl: 1, path: p1, delay: 4 * T / 10, client: 0},
+							{op: "GetCardByID", args: argsFor("GetCardByID", 2), ctrl: 2, path: p2, delay: 0, client: 0},
+						}
+						scenarios = append(scenarios, callScenario(fmt.Sprintf("3calls-mixed/bind=%d/%s+%s+%s", bind, p0, p1, p2), bind, c3, 2, false))
 					}
 				}
 			}
@@ -418,7 +465,7 @@ func main() {
 	if r.Worker == "" && r.Replay == "" {
 		racePass(r)
 	}
-	r.Rule("2 (thorough also 3) harness threads x {bind port 0, fixed} x {one shared client, two clients (also: same fixed port on the wildcard and on a specific local address)} x {same, different controller} x paths {udp,tcp,broadcast}^2 x reply delays {0,0.4T,0.8T}^2 x start offset {0,0.3T} x 3 operation pairs; discovery alongside a directed call; Listen with two events and the stop signal at 5 offsets; for each scenario ALL interleavings with <= 2 preemptions. distinct = distinct per-call outcome labels observed")
+	r.Rule("2 (thorough also 3) harness threads x {bind port 0, fixed} x {one shared client, two clients (also: same fixed port on the wildcard and on a specific local address)} x {same, different controller} x paths {udp,tcp,broadcast}^2 x reply delays {0,0.4T,0.8T}^2 x start offset {0,0.3T} x 3 operation pairs; discovery alongside a directed call; Listen with two events and the stop signal at 5 offsets; two threads x two sequential calls; for each scenario ALL interleavings with <= 2 preemptions (thorough: the two-call scenarios under ALL interleavings without bound, three-call families with <= 2 preemptions). distinct = distinct per-call outcome labels observed")
 	r.Assume("sequentially consistent memory; scheduling points at mutex, channel, socket and sleep operations; unsynchronised accesses to locals shared with goroutine closures are caught by the vector-clock detector, everything else only by the free-running -race pass")
 	r.Assume("the simulated network orders consecutive operations on one socket (fd mutex atomics), as the real net package does")
 	r.Finish()
